@@ -127,7 +127,7 @@ Definition era_day_ok (r : Z) : bool :=
 Definition era_date_ok (y m d : Z) : bool :=
   negb ((1 <=? d) && (d <=? days_in_month y m)) ||
   (let n := days_from_civil y m d in
-   (0 <=? n) && (n <? 146097) &&
+   (0 <=? n) && (n <? 146097) && (negb (y <=? 399) || (n <? 145731)) &&
    (let '(y', m', d') := civil_era n in (y' =? y) && (m' =? m) && (d' =? d))).
 Definition era_dates_ok : bool :=
   range_all 400 (fun y => range_all 12 (fun m => range_all 31 (fun d => era_date_ok y m d) 1) 1) 1.
